@@ -1086,14 +1086,17 @@ class PyCdlib:
                         self.eltorito_boot_catalog.add_dirrecord(new_record)
                     else:
                         # For real files, create an inode that points to the
-                        # location on disk.
-                        if extent_to_use in extent_to_inode:
+                        # location on disk.  Zero-length entries have no
+                        # location, so nothing says that two of them are the
+                        # same file; each gets an inode of its own.
+                        if len_to_use > 0 and extent_to_use in extent_to_inode:
                             ino = extent_to_inode[extent_to_use]
                         else:
                             ino = inode.Inode()
                             ino.parse(extent_to_use, len_to_use, cdfp,
                                       self.logical_block_size)
-                            extent_to_inode[extent_to_use] = ino
+                            if len_to_use > 0:
+                                extent_to_inode[extent_to_use] = ino
                             self.inodes.append(ino)
 
                         ino.linked_records.append((new_record, vd == self.pvd))
@@ -2089,6 +2092,7 @@ class PyCdlib:
                                                 self.udf_file_set.root_dir_icb.log_block_num,
                                                 None)
 
+        zero_length_inodes = {}  # type: Dict[int, inode.Inode]
         udf_file_entries = collections.deque([self.udf_root])
         while udf_file_entries:
             udf_file_entry = udf_file_entries.popleft()
@@ -2151,14 +2155,24 @@ class PyCdlib:
                         if self.eltorito_boot_catalog is not None and abs_file_data_extent == self.eltorito_boot_catalog.extent_location():
                             self.eltorito_boot_catalog.add_dirrecord(next_entry)
                         else:
-                            if abs_file_data_extent in extent_to_inode:
-                                ino = extent_to_inode[abs_file_data_extent]
+                            # Zero-length entries have no data location, so
+                            # what identifies such a file is its File Entry:
+                            # names that share a File Entry share an inode,
+                            # and otherwise each gets an inode of its own.
+                            if next_entry.get_data_length() > 0:
+                                inode_map = extent_to_inode
+                                inode_key = abs_file_data_extent
+                            else:
+                                inode_map = zero_length_inodes
+                                inode_key = abs_file_entry_extent
+                            if inode_key in inode_map:
+                                ino = inode_map[inode_key]
                             else:
                                 ino = inode.Inode()
                                 ino.parse(abs_file_data_extent,
                                           next_entry.get_data_length(),
                                           self._cdfp, self.logical_block_size)
-                                extent_to_inode[abs_file_data_extent] = ino
+                                inode_map[inode_key] = ino
                                 self.inodes.append(ino)
 
                             ino.linked_records.append((next_entry, False))
